@@ -53,7 +53,15 @@ func (g *c16gen) intExpr(d int) *m.Node {
 // operand draws one and/or operand from a few shapes over fresh variables, so that
 // many operands have the same estimated cost while others differ.
 func (g *c16gen) operand(d int) *m.Node {
-	switch pickW(g.t, "shape", 5, 4, 2, 2, 2, 1, 1, 1) {
+	switch pickW(g.t, "shape", 5, 4, 2, 2, 2, 1, 1, 1, 1) {
+	case 8:
+		// a division (or remainder) by a variable that an operand written EARLIER mentions as well - the
+		// guard idiom (and (!= d 0) (> (/ n d) 2)); to Reordering it is an operand like any other
+		if g.ni == 0 {
+			return m.Op("!=", g.i(), m.Const(int64(0)))
+		}
+		d := m.Var(fmt.Sprintf("q%d", rapid.IntRange(0, g.ni-1).Draw(g.t, "divisor")))
+		return m.Op(rapid.SampledFrom([]string{">", "<", "="}).Draw(g.t, "divcmp"), m.Op(rapid.SampledFrom([]string{"/", "%", "div", "mod"}).Draw(g.t, "divop"), g.i(), d), m.Const(rapid.Int64Range(0, 3).Draw(g.t, "divk")))
 	case 7:
 		// a comparison of string literals whose TEXT is the name of a variable or operator used (and
 		// maybe priced) elsewhere: the operand mentions neither
